@@ -141,6 +141,7 @@ async fn layout_case(out: &mut Out, groups: &[Vec<Upd>], c: &CCfg, read_fault: O
             json!({"workload": p.text, "now_ms": c.now, "tombstone_ttl_ms": c.ttl.as_millis().to_string(), "target": c.target, "min": c.min, "max_per_compaction": c.maxper}));
     }
     let after = p.rec(out).await;
+    p.man(out);
     let read_recs = p.store.inner.lock().unwrap().read_faults.clone();
     let undetectable = !p.undetectable().is_empty();
     p.commit(out);
